@@ -503,14 +503,22 @@ pub fn run(ctx: &Ctx) -> Result<(), String> {
                 sock.set_read_timeout(Some(std::time::Duration::from_secs(2))).unwrap();
                 let (mut total, mut bad) = (0u64, 0u64);
                 let mut buf = [0u8; 4096];
+                let mut silent = 0;
                 for i in 0..400u64 {
                     let v = if i % 2 == 0 { Version::Classic } else { Version::Ietf13 };
                     let req = rtref::responder::std_request(v, &nonce(0xfe_0000 + i, v.nonce_len()));
                     let _ = sock.send_to(&req, ("127.0.0.1", port));
                     if let Ok((l, _)) = sock.recv_from(&mut buf) {
                         total += 1;
+                        silent = 0;
                         if authentic(&buf[..l], &req, v, Some(&pk), SERVER_VIEW).is_err() {
                             bad += 1;
+                        }
+                    } else {
+                        silent += 1;
+                        // a server that is gone or has stopped answering: the count below settles it
+                        if silent >= 5 || sp.try_status().is_some() {
+                            break;
                         }
                     }
                 }
